@@ -80,6 +80,9 @@ def judge(case, d, model):
             if c0 != c2:
                 bad.append(('structure-differs-after-scan', 'the module scanned from MIR_output text differs structurally from the '
                             'module printed: ' + K.first_diff(c0, c2)))
+        if d.get('LI2', 'ok') != 'ok' and d.get('LI0', 'ok') == 'ok':
+            bad.append(('label-identity-lost-after-scan', 'a label reference of the scanned module is not attached to a label insn of '
+                        'its function: %s' % d.get('LI2')))
         if d.get('SC2') != 'ok' or d.get('T3') != '=':
             bad.append(('not-a-fixpoint', 'the second print/scan round changes the text again (%s)' % d.get('SC2')))
         if 'X0' in d and d.get('X2') != d.get('X0'):
@@ -261,7 +264,7 @@ def replay(chk, path):
     r1, rm = run_cases(exes, [case])
     bad, info = judge(case, r1[0], rm[0])
     print('case:', case)
-    for k in ('build', 'SC', 'T2', 'S2', 'TN2', 'SC2', 'T3', 'X0', 'X2', 'FR0', 'FR2', 'CRASH'):
+    for k in ('build', 'SC', 'T2', 'S2', 'LI2', 'TN2', 'SC2', 'T3', 'X0', 'X2', 'FR0', 'FR2', 'CRASH'):
         v = r1[0].get(k, '-')
         print('  impl.%s = %s   model.%s = %s' % (k, v[:100], k, rm[0].get(k, '-')[:100]))
     for s, w in bad:
